@@ -119,6 +119,10 @@ func recipeFor(p *Program, o *Obligation) *replayRecipe {
 			// the serializer is reached with client bytes through the error reply for an unknown command name
 			return &replayRecipe{kind: "request", pkgDir: "./redis", tmpl: "redis_replay_test.go.txt", command: "", msgBytes: true}
 		}
+		if strings.HasPrefix(key, "proto.(*Array).") || strings.HasPrefix(key, "proto.(*Message).") {
+			// the request/reply containers are exercised through the request scenarios (differential against HEAD)
+			return &replayRecipe{kind: "request", pkgDir: "./redis", tmpl: "redis_replay_test.go.txt", command: "PING"}
+		}
 		return nil
 	}
 	if fn.Pkg != nil && fn.Pkg.Pkg.Name() == "glob" {
@@ -494,6 +498,10 @@ func scenarioPortfolio(password bool) [][]string {
 		{respCmd("SELECT", "5"), respCmd("GET", "a"), respCmd("SELECT", "abc"), respCmd("GET", "b"), respCmd("SELECT"), respCmd("GET", "c"), respCmd("SELECT", "2"), respCmd("GET", "d")},
 		{respCmd("set", "k", "v", "ex", "10"), respCmd("SET", "k", "v", "Px", "1500"), respCmd("set", "k", "v", "nx"), respCmd("SET", "k", "v", "KeepTTL")},
 		{respCmd("ZADD", "z", "1", "a", "2"), respCmd("ZADD", "z", "nan", "m"), respCmd("ZINCRBY", "z", "nan", "m"), respCmd("GET", "k")},
+		// one pair each: the order in which MSET/MSETNX/HMSET visit several pairs is Go map order, not a behaviour to compare
+		{respCmd("MSETNX", "k1", "v 1\r\n"), respCmd("MSET", "a", "b"), respCmd("HMSET", "h", "f", "v")},
+		{respCmd("ZREVRANGE", "z", "0", "-1", "WITHSCORES"), respCmd("ZREVRANGEBYSCORE", "z", "3", "1", "withscores"), respCmd("ZREVRANGE", "z", "0", "-1"), respCmd("MGET", "a", "b")},
+		{respCmd("ZRANGEBYSCORE", "z", "0", "10", "LIMIT", "5"), respCmd("ZRANGE", "z", "0", "-1", "LIMIT", "abc", "5"), respCmd("ZRANGEBYSCORE", "z", "0", "10", "limit", "0", "2", "WITHSCORES"), respCmd("ZREVRANGE", "z", "0", "1", "LIMIT", "0", "x"), respCmd("PING")},
 		{respCmd("foo\rX+OK\rX"), respCmd("PING")},
 		{respCmd("x\r\n+OK"), respCmd("x\ny"), respCmd("CONFIG", "a\rb")},
 	}
